@@ -242,7 +242,7 @@ func CheckC07(e *fw.Env, l *Lab) {
 		e.Res.Inconc("twin world: %v", err)
 		return
 	}
-	tr, err := replayOn(twin, st)
+	tr, err := replayOn(twin, st, 0)
 	if err != nil {
 		e.Res.Inconc("twin replay: %v", err)
 		return
